@@ -69,8 +69,11 @@ func (r *responseStorer) StoreResponse(
 
 	// All Vary field lines count (RFC 9110 §5.3): a field nominated on a second
 	// line selects the response just as one on the first line.
-	vary := strings.Join(resp.Header.Values("Vary"), ", ")
-	if varyHasWildcard(vary) {
+	varyLines := resp.Header.Values("Vary")
+	vary := strings.Join(varyLines, ", ")
+	// (each field line is looked at on its own: a stray quote on one line must
+	// not hide a "*" on the next)
+	if slices.ContainsFunc(varyLines, varyHasWildcard) {
 		// A response that varies on "*" matches no request, whatever else its
 		// Vary value names and however it is spelled: it is one and the same
 		// variant, recorded (and replaced) as such.
